@@ -45,7 +45,8 @@ theorem inFlight_off (t : Tcb) (u j : Nat) (hu : u < M32) (hj : j < M32) (h1 : t
 theorem segStep_data (mss cap : Nat) (t : Tcb) (j : Nat) (hfl : t.inFlight = j)
     (hc : 0 < t.sendBuf.length - j ∧ 0 < t.sndWnd - j) :
     ∃ sg : Seg, t.segStep mss cap 0 =
-        some ({ t with sndNxt := wadd t.sndNxt (min (min (t.sendBuf.length - j) mss) (t.sndWnd - j)) }, sg) ∧
+        some ({ t with sndNxt := wadd t.sndNxt (min (min (t.sendBuf.length - j) mss) (t.sndWnd - j)),
+                       sndMax := t.advMax (wadd t.sndNxt (min (min (t.sendBuf.length - j) mss) (t.sndWnd - j))) }, sg) ∧
       sg.seq = t.sndNxt ∧ sg.payload = (t.sendBuf.drop j).take (min (min (t.sendBuf.length - j) mss) (t.sndWnd - j)) ∧
       sg.flags.ack = true ∧ sg.flags.fin = false ∧ sg.flags.rst = false ∧ sg.flags.syn = false := by
   unfold Tcb.segStep
@@ -56,15 +57,17 @@ theorem segStep_data (mss cap : Nat) (t : Tcb) (j : Nat) (hfl : t.inFlight = j)
 /-- One `segment_one` pass of a sender with `j` bytes in flight, no FIN queued. -/
 theorem segLoop_chain (mss cap : Nat) (hm : 1 ≤ mss) (u : Nat) (hu : u < M32) :
     ∀ (fuel : Nat) (t : Tcb) (j : Nat) (acc : List Seg),
-      t.sndUna = u → t.sndNxt = wadd u j → t.finSeq = none → t.sndWnd < M32 →
+      t.sndUna = u → t.sndNxt = wadd u j → t.sndMax = wadd u j → t.finSeq = none → t.sndWnd < M32 →
       j ≤ min t.sendBuf.length t.sndWnd → min t.sendBuf.length t.sndWnd - j < fuel →
-      ∃ L, Tcb.segLoop mss cap 0 fuel t acc = ({ t with sndNxt := wadd u (min t.sendBuf.length t.sndWnd) }, acc ++ L) ∧
+      ∃ L, Tcb.segLoop mss cap 0 fuel t acc =
+          ({ t with sndNxt := wadd u (min t.sendBuf.length t.sndWnd), sndMax := wadd u (min t.sendBuf.length t.sndWnd) },
+            acc ++ L) ∧
         DataChain t.sendBuf u j (min t.sendBuf.length t.sndWnd) L := by
   intro fuel
   induction fuel with
-  | zero => intro t j acc _ _ _ _ _ hf; omega
+  | zero => intro t j acc _ _ _ _ _ _ hf; omega
   | succ fuel ih =>
-    intro t j acc h1 h2 h3 hw hj hf
+    intro t j acc h1 h2 h2m h3 hw hj hf
     have hjlt : j < M32 := by omega
     have hfl := inFlight_off t u j hu hjlt h1 h2
     by_cases hlt : j < min t.sendBuf.length t.sndWnd
@@ -72,9 +75,17 @@ theorem segLoop_chain (mss cap : Nat) (hm : 1 ≤ mss) (u : Nat) (hu : u < M32) 
       obtain ⟨sg, hst, hseq, hpay, hfa, hff, hfr, hfs⟩ := segStep_data mss cap t j hfl hc
       have hn : 0 < min (min (t.sendBuf.length - j) mss) (t.sndWnd - j) := by omega
       have hle : j + min (min (t.sendBuf.length - j) mss) (t.sndWnd - j) ≤ min t.sendBuf.length t.sndWnd := by omega
-      obtain ⟨L, hL, hch⟩ := ih { t with sndNxt := wadd t.sndNxt (min (min (t.sendBuf.length - j) mss) (t.sndWnd - j)) }
+      have hadv : t.advMax (wadd t.sndNxt (min (min (t.sendBuf.length - j) mss) (t.sndWnd - j))) =
+          wadd u (j + min (min (t.sendBuf.length - j) mss) (t.sndWnd - j)) := by
+        unfold Tcb.advMax
+        rw [h2, h2m, h1, wadd_wadd, wsub_wadd u u _ hu hu (by rw [wsub_self]; omega),
+          wsub_wadd u u _ hu hu (by rw [wsub_self]; omega), wsub_self]
+        rw [if_pos (by omega)]
+      rw [hadv] at hst
+      obtain ⟨L, hL, hch⟩ := ih { t with sndNxt := wadd t.sndNxt (min (min (t.sendBuf.length - j) mss) (t.sndWnd - j)),
+                                         sndMax := wadd u (j + min (min (t.sendBuf.length - j) mss) (t.sndWnd - j)) }
         (j + min (min (t.sendBuf.length - j) mss) (t.sndWnd - j)) (acc ++ [sg]) h1
-        (by dsimp only; rw [h2, wadd_wadd]) h3 hw hle (by dsimp only; omega)
+        (by dsimp only; rw [h2, wadd_wadd]) rfl h3 hw hle (by dsimp only; omega)
       refine ⟨sg :: L, ?_, ?_⟩
       · unfold Tcb.segLoop
         rw [hst]
@@ -92,7 +103,10 @@ theorem segLoop_chain (mss cap : Nat) (hm : 1 ≤ mss) (u : Nat) (hu : u < M32) 
         simp [hfp]
       refine ⟨[], ?_, ?_⟩
       · unfold Tcb.segLoop
-        rw [hst, ← hjk, ← h2]
+        rw [hst, ← hjk]
+        cases t
+        simp only at h2 h2m
+        subst h2 h2m
         simp
       · rw [← hjk]; exact DataChain.nil j
 
@@ -103,15 +117,20 @@ def Tcb.took (t : Tcb) (sg : Seg) : Tcb :=
 /-- An in-order data segment that fits is taken whole and acknowledged; a receiver with nothing of
     its own in flight changes nothing else. -/
 theorem recv_data (cfg : Cfg) (e : End) (sg : Seg) (hst : e.tcb.state = .established)
-    (hpf : e.tcb.peerFin = false) (hfl : e.tcb.sndNxt = e.tcb.sndUna) (hseq : sg.seq = e.tcb.rcvNxt)
-    (hne : sg.payload ≠ []) (hroom : e.tcb.recvBuf.length + sg.payload.length ≤ cfg.recvCap)
+    (hpf : e.tcb.peerFin = false) (hfl : e.tcb.sndNxt = e.tcb.sndUna) (hmx : e.tcb.sndMax = e.tcb.sndUna)
+    (hseq : sg.seq = e.tcb.rcvNxt) (hne : sg.payload ≠ []) (hroom : e.tcb.recvBuf.length + sg.payload.length ≤ cfg.recvCap)
     (hfa : sg.flags.ack = true) (hff : sg.flags.fin = false) (hfr : sg.flags.rst = false) :
     endRecv cfg e sg =
       { e with tcb := e.tcb.took sg, out := e.out ++ [(e.tcb.took sg).ackSeg cfg.recvCap 0 0] } := by
   have hif : e.tcb.inFlight = 0 := by unfold Tcb.inFlight; rw [hfl, wsub_self]
-  have hav : e.tcb.ackValid sg.ack = false := by
+  have hbd : e.tcb.ackBound cfg.fixSndMax = 0 := by
+    unfold Tcb.ackBound
+    split
+    · rw [hmx, wsub_self]
+    · exact hif
+  have hav : e.tcb.ackValid cfg.fixSndMax sg.ack = false := by
     unfold Tcb.ackValid
-    rw [hif]
+    rw [hbd]
     by_cases h : 0 < wsub sg.ack e.tcb.sndUna
     · have : ¬ (wsub sg.ack e.tcb.sndUna ≤ 0) := by omega
       simp [this]
@@ -120,7 +139,7 @@ theorem recv_data (cfg : Cfg) (e : End) (sg : Seg) (hst : e.tcb.state = .establi
     cases hp : sg.payload with
     | nil => exact absurd hp hne
     | cons a b => simp
-  have hacc : Tcb.acceptLen cfg.recvCap (e.tcb.onAck sg) sg = sg.payload.length := by
+  have hacc : Tcb.acceptLen cfg.recvCap (e.tcb.onAck cfg.fixSndMax sg) sg = sg.payload.length := by
     unfold Tcb.acceptLen Tcb.onAck
     rw [hfa, hav]
     simp only [if_true, Bool.false_eq_true, if_false]
@@ -155,7 +174,7 @@ theorem take_split (l : List Nat) (n m : Nat) (h : n ≤ m) : l.take m = l.take 
 /-- A receiver with room for bytes `j … k` takes the whole chain in order and answers every segment. -/
 theorem recv_chain (cfg : Cfg) (B : List Nat) (u : Nat) {j k : Nat} {L : List Seg} (h : DataChain B u j k L) :
     ∀ e : End, e.tcb.state = .established → e.tcb.peerFin = false → e.tcb.sndNxt = e.tcb.sndUna →
-      e.tcb.rcvNxt = wadd u j → e.tcb.recvBuf.length + (k - j) ≤ cfg.recvCap →
+      e.tcb.sndMax = e.tcb.sndUna → e.tcb.rcvNxt = wadd u j → e.tcb.recvBuf.length + (k - j) ≤ cfg.recvCap →
       ∃ (w : Nat) (A : List Seg),
         L.foldl (endRecv cfg) e =
           { e with tcb := { e.tcb with sndWnd := w, recvBuf := e.tcb.recvBuf ++ (B.drop j).take (k - j),
@@ -164,19 +183,19 @@ theorem recv_chain (cfg : Cfg) (B : List Nat) (u : Nat) {j k : Nat} {L : List Se
         AckChain u cfg.recvCap j k e.tcb.recvBuf.length A ∧ (j = k → w = e.tcb.sndWnd) := by
   induction h with
   | nil j =>
-    intro e _ _ _ hrn _
+    intro e _ _ _ _ hrn _
     refine ⟨e.tcb.sndWnd, [], ?_, AckChain.nil j _, fun _ => rfl⟩
     simp [← hrn]
   | cons j n k sg rest hn hjk hkB hseq hpay hfa hff hfr hfs hch ih =>
-    intro e hst hpf hfl hrn hroom
+    intro e hst hpf hfl hmx hrn hroom
     have hplen : sg.payload.length = n := by
       rw [hpay, List.length_take, List.length_drop]; omega
     have hne : sg.payload ≠ [] := by
       intro h0; rw [h0] at hplen; simp at hplen; omega
-    have h1 := recv_data cfg e sg hst hpf hfl (hseq.trans hrn.symm) hne (by omega) hfa hff hfr
+    have h1 := recv_data cfg e sg hst hpf hfl hmx (hseq.trans hrn.symm) hne (by omega) hfa hff hfr
     have hle := hch.le
     obtain ⟨w, A, hA, hAc, _⟩ := ih { e with tcb := e.tcb.took sg, out := e.out ++ [(e.tcb.took sg).ackSeg cfg.recvCap 0 0] }
-      hst hpf hfl (by simp only [Tcb.took]; rw [hrn, hplen, wadd_wadd])
+      hst hpf hfl hmx (by simp only [Tcb.took]; rw [hrn, hplen, wadd_wadd])
       (by simp only [Tcb.took, List.length_append]; omega)
     refine ⟨w, (e.tcb.took sg).ackSeg cfg.recvCap 0 0 :: A, ?_, ?_, fun hjk' => by omega⟩
     · rw [List.foldl_cons, h1, hA]
@@ -195,7 +214,7 @@ theorem recv_chain (cfg : Cfg) (B : List Nat) (u : Nat) {j k : Nat} {L : List Se
 /-- A pure ACK (no payload, no FIN / SYN / RST) at an established endpoint with no FIN queued: a
     valid one frees the acknowledged bytes and resets the retransmit state; any one sets the window. -/
 theorem recv_pure_ack (cfg : Cfg) (e : End) (sg : Seg) (hst : e.tcb.state = .established)
-    (hfin : e.tcb.finSeq = none) (hp : sg.payload = []) (hfa : sg.flags.ack = true)
+    (hfin : e.tcb.finSeq = none) (hmn : e.tcb.sndMax = e.tcb.sndNxt) (hp : sg.payload = []) (hfa : sg.flags.ack = true)
     (hff : sg.flags.fin = false) (hfr : sg.flags.rst = false) (hfs : sg.flags.syn = false) :
     endRecv cfg e sg =
       { e with tcb :=
@@ -203,7 +222,12 @@ theorem recv_pure_ack (cfg : Cfg) (e : End) (sg : Seg) (hst : e.tcb.state = .est
             { e.tcb with sendBuf := e.tcb.sendBuf.drop (wsub sg.ack e.tcb.sndUna), sndUna := sg.ack,
                          egressSinceAck := 0, retxAttempts := 0, sndWnd := sg.window }
           else { e.tcb with sndWnd := sg.window } } := by
-  have hon : e.tcb.onAck sg =
+  have hbd : e.tcb.ackBound cfg.fixSndMax = e.tcb.inFlight := by
+    unfold Tcb.ackBound Tcb.inFlight
+    split
+    · rw [hmn]
+    · rfl
+  have hon : e.tcb.onAck cfg.fixSndMax sg =
       if 0 < wsub sg.ack e.tcb.sndUna ∧ wsub sg.ack e.tcb.sndUna ≤ e.tcb.inFlight then
         { e.tcb with sendBuf := e.tcb.sendBuf.drop (wsub sg.ack e.tcb.sndUna), sndUna := sg.ack,
                      egressSinceAck := 0, retxAttempts := 0, sndWnd := sg.window }
@@ -212,20 +236,22 @@ theorem recv_pure_ack (cfg : Cfg) (e : End) (sg : Seg) (hst : e.tcb.state = .est
     rw [hfa]
     simp only [if_true]
     by_cases hv : 0 < wsub sg.ack e.tcb.sndUna ∧ wsub sg.ack e.tcb.sndUna ≤ e.tcb.inFlight
-    · have : e.tcb.ackValid sg.ack = true := by unfold Tcb.ackValid; simp [hv.1, hv.2]
+    · have : e.tcb.ackValid cfg.fixSndMax sg.ack = true := by unfold Tcb.ackValid; rw [hbd]; simp [hv.1, hv.2]
       rw [this, if_pos hv]
       unfold Tcb.ackAdvance Tcb.finAckedBy
       rw [hfin]
-      simp
-    · have : e.tcb.ackValid sg.ack = false := by
+      have hng : ¬ (wsub sg.ack e.tcb.sndUna > e.tcb.inFlight) := Nat.not_lt.mpr hv.2
+      simp [hng]
+    · have : e.tcb.ackValid cfg.fixSndMax sg.ack = false := by
         unfold Tcb.ackValid
+        rw [hbd]
         by_cases h1 : 0 < wsub sg.ack e.tcb.sndUna
         · have : ¬ (wsub sg.ack e.tcb.sndUna ≤ e.tcb.inFlight) := fun h2 => hv ⟨h1, h2⟩
           simp [this]
         · simp [h1]
       rw [this, if_neg hv]
       simp
-  have hhe : e.tcb.handleEstablished cfg sg = (e.tcb.onAck sg, false) := by
+  have hhe : e.tcb.handleEstablished cfg sg = (e.tcb.onAck cfg.fixSndMax sg, false) := by
     unfold Tcb.handleEstablished
     dsimp only
     have hal : ∀ t : Tcb, Tcb.acceptLen cfg.recvCap t sg = 0 := by
@@ -246,8 +272,8 @@ theorem recv_pure_ack (cfg : Cfg) (e : End) (sg : Seg) (hst : e.tcb.state = .est
     one advertised and its retransmit state is reset. -/
 theorem ack_chain (cfg : Cfg) (u cap : Nat) {j k r : Nat} {A : List Seg}
     (h : AckChain u cap j k r A) (hk : k < M32) :
-    ∀ e : End, e.tcb.state = .established → e.tcb.finSeq = none → e.tcb.sndUna = wadd u j →
-      e.tcb.sndNxt = wadd u k →
+    ∀ e : End, e.tcb.state = .established → e.tcb.finSeq = none → e.tcb.sndMax = e.tcb.sndNxt →
+      e.tcb.sndUna = wadd u j → e.tcb.sndNxt = wadd u k →
       A.foldl (endRecv cfg) e =
         { e with tcb :=
             { e.tcb with sendBuf := e.tcb.sendBuf.drop (k - j), sndUna := wadd u k,
@@ -256,20 +282,20 @@ theorem ack_chain (cfg : Cfg) (u cap : Nat) {j k r : Nat} {A : List Seg}
                          retxAttempts := if j = k then e.tcb.retxAttempts else 0 } } := by
   induction h with
   | nil j r =>
-    intro e _ _ hun _
+    intro e _ _ _ hun _
     simp [← hun]
   | cons j n k r sg rest hn hjk hp hfa hff hfr hfs hack hwin hch ih =>
-    intro e hst hfin hun hnx
+    intro e hst hfin hmn hun hnx
     have hle : j + n ≤ k := hjk
     have hacked : wsub sg.ack e.tcb.sndUna = n := by
       rw [hack, hun, wsub_wadd_wadd u j (j + n) (by omega) (by omega)]; omega
     have hinfl : e.tcb.inFlight = k - j := by
       unfold Tcb.inFlight
       rw [hnx, hun, wsub_wadd_wadd u j k (by omega) hk]
-    have h1 := recv_pure_ack cfg e sg hst hfin hp hfa hff hfr hfs
+    have h1 := recv_pure_ack cfg e sg hst hfin hmn hp hfa hff hfr hfs
     rw [hacked, hinfl, if_pos (by omega : 0 < n ∧ n ≤ k - j)] at h1
     have hle2 := hjk
-    have ih' := ih hk (endRecv cfg e sg) (by rw [h1]; exact hst) (by rw [h1]; exact hfin)
+    have ih' := ih hk (endRecv cfg e sg) (by rw [h1]; exact hst) (by rw [h1]; exact hfin) (by rw [h1]; exact hmn)
       (by rw [h1]; exact hack) (by rw [h1]; exact hnx)
     rw [List.foldl_cons, ih', h1]
     have hne : j ≠ k := by omega
@@ -340,16 +366,18 @@ theorem segment_noop (cfg : Cfg) (mss : Nat) (e o : End) (hsb : e.tcb.sendBuf = 
 
 /-- `segment_one` at a clean sender: a chain covering `min |send_buf| snd_wnd` bytes. -/
 theorem segment_step (cfg : Cfg) (mss : Nat) (hm : 1 ≤ mss) (e o : End) (hst : e.tcb.state = .established)
-    (hlt : e.tcb.sndUna < M32) (hfl : e.tcb.sndNxt = e.tcb.sndUna) (hfin : e.tcb.finSeq = none)
-    (hw : e.tcb.sndWnd < M32) :
+    (hlt : e.tcb.sndUna < M32) (hfl : e.tcb.sndNxt = e.tcb.sndUna) (hmx : e.tcb.sndMax = e.tcb.sndUna)
+    (hfin : e.tcb.finSeq = none) (hw : e.tcb.sndWnd < M32) :
     ∃ L, endStep cfg mss e o .segment =
-        { e with tcb := { e.tcb with sndNxt := wadd e.tcb.sndUna (min e.tcb.sendBuf.length e.tcb.sndWnd) },
+        { e with tcb := { e.tcb with sndNxt := wadd e.tcb.sndUna (min e.tcb.sendBuf.length e.tcb.sndWnd),
+                                     sndMax := wadd e.tcb.sndUna (min e.tcb.sendBuf.length e.tcb.sndWnd) },
                  out := e.out ++ L } ∧
       DataChain e.tcb.sendBuf e.tcb.sndUna 0 (min e.tcb.sendBuf.length e.tcb.sndWnd) L := by
   have hnx0 : e.tcb.sndNxt = wadd e.tcb.sndUna 0 := by rw [wadd_zero _ hlt]; exact hfl
+  have hmx0 : e.tcb.sndMax = wadd e.tcb.sndUna 0 := by rw [wadd_zero _ hlt]; exact hmx
   by_cases hc : e.tcb.segCandidate = true
   · obtain ⟨L, hL, hch⟩ := segLoop_chain mss cfg.recvCap hm e.tcb.sndUna hlt (e.tcb.sendBuf.length + 2) e.tcb 0 []
-      rfl hnx0 hfin hw (Nat.zero_le _) (by omega)
+      rfl hnx0 hmx0 hfin hw (Nat.zero_le _) (by omega)
     refine ⟨L, ?_, hch⟩
     simp only [endStep, hc, if_true]
     rw [hL]
@@ -363,7 +391,11 @@ theorem segment_step (cfg : Cfg) (mss : Nat) (hm : 1 ≤ mss) (e o : End) (hst :
     · have hcf : e.tcb.segCandidate = false := by simpa using hc
       simp only [endStep, hcf]
       rw [hlen]
-      simp [← hnx0]
+      obtain ⟨t, a, b, c, o'⟩ := e
+      cases t
+      simp only at hnx0 hmx0
+      subst hnx0 hmx0
+      simp
     · rw [hlen]; simp; exact DataChain.nil 0
 
 /-- `poll_recv` with a buffer at least as large as what is queued drains the receive buffer; a
@@ -420,6 +452,7 @@ structure LInv (cfg : Cfg) (p : Pair) : Prop where
   xw1 : 1 ≤ p.x.tcb.sndWnd
   xw2 : p.x.tcb.sndWnd ≤ advWindow cfg.recvCap 0
   xes : p.x.tcb.egressSinceAck = 0
+  xmx : p.x.tcb.sndMax = p.x.tcb.sndUna
   yst : p.y.tcb.state = .established
   yfl : p.y.tcb.sndNxt = p.y.tcb.sndUna
   ysb : p.y.tcb.sendBuf = []
@@ -429,6 +462,7 @@ structure LInv (cfg : Cfg) (p : Pair) : Prop where
   yrs : p.y.tcb.reset = false
   yto : p.y.tcb.timedOut = false
   yrn : p.y.tcb.rcvNxt = p.x.tcb.sndUna
+  ymx : p.y.tcb.sndMax = p.y.tcb.sndUna
 
 /-- An endpoint after `poll_send` accepted `w`. -/
 def End.wrote (e : End) (w : List Nat) : End :=
@@ -436,7 +470,7 @@ def End.wrote (e : End) (w : List Nat) : End :=
 
 /-- A clean sender after a `segment_one` pass that put `k` bytes in flight as the segments `L`. -/
 def End.sent (e : End) (k : Nat) (L : List Seg) : End :=
-  { e with tcb := { e.tcb with sndNxt := wadd e.tcb.sndUna k }, out := e.out ++ L }
+  { e with tcb := { e.tcb with sndNxt := wadd e.tcb.sndUna k, sndMax := wadd e.tcb.sndUna k }, out := e.out ++ L }
 
 /-- A receiver after it took a chain: window `wy` seen, buffer `R`, next expected `rn`, ACKs `A` sent. -/
 def End.got (e : End) (wy rn : Nat) (R : List Nat) (A : List Seg) : End :=
@@ -545,7 +579,7 @@ theorem liveRound_ok (cfg : Cfg) (mss thr max d n : Nat) (w : List Nat) (p : Pai
     retx_noop cfg mss thr max p.y _ h.yst h.yfl
   have hwlt : p.x.tcb.sndWnd < M32 := by
     have := h.xw2; unfold advWindow at this; unfold M32; omega
-  obtain ⟨L, hx3, hch⟩ := segment_step cfg mss hm (p.x.wrote (w.take m)) p.y h.xst h.xlt h.xfl h.xfin hwlt
+  obtain ⟨L, hx3, hch⟩ := segment_step cfg mss hm (p.x.wrote (w.take m)) p.y h.xst h.xlt h.xfl h.xmx h.xfin hwlt
   have hx3' : endStep cfg mss (p.x.wrote (w.take m)) p.y .segment =
       (p.x.wrote (w.take m)).sent (min (p.x.tcb.sendBuf ++ w.take m).length p.x.tcb.sndWnd) L := hx3
   have hy2 : ∀ o, endStep cfg mss p.y o .segment = p.y := fun o => segment_noop cfg mss p.y o h.ysb h.yfl h.yfin
@@ -562,7 +596,7 @@ theorem liveRound_ok (cfg : Cfg) (mss thr max d n : Nat) (w : List Nat) (p : Pai
     have := hch
     simp only [End.wrote, hB] at this
     rw [← hk]; simpa [List.length_append] using this
-  obtain ⟨wy, A, hY3, hAc, _⟩ := recv_chain cfg B p.x.tcb.sndUna hch' p.y h.yst h.ypf h.yfl
+  obtain ⟨wy, A, hY3, hAc, _⟩ := recv_chain cfg B p.x.tcb.sndUna hch' p.y h.yst h.ypf h.yfl h.ymx
     (by rw [h.yrn, wadd_zero _ h.xlt]) (by rw [h.yrb]; simp; omega)
   rw [h.yrb] at hY3 hAc
   simp only [List.nil_append, List.drop_zero, Nat.sub_zero, List.length_nil] at hY3 hAc
@@ -611,7 +645,7 @@ theorem liveRound_ok (cfg : Cfg) (mss thr max d n : Nat) (w : List Nat) (p : Pai
       rw [if_neg this, hes]
   obtain ⟨tk, htk0, hT⟩ := hT
   -- the sender takes the ACKs
-  have hX4a := ack_chain cfg p.x.tcb.sndUna cfg.recvCap hAc hk32 (((p.x.wrote (w.take m)).sent k L).ticked tk) h.xst h.xfin
+  have hX4a := ack_chain cfg p.x.tcb.sndUna cfg.recvCap hAc hk32 (((p.x.wrote (w.take m)).sent k L).ticked tk) h.xst h.xfin rfl
     (by show p.x.tcb.sndUna = _; rw [wadd_zero _ h.xlt]) rfl
   have hround : liveRound cfg mss thr max d n w p =
       { x := U.foldl (endRecv cfg) (A.foldl (endRecv cfg) (((p.x.wrote (w.take m)).sent k L).ticked tk)),
@@ -675,7 +709,7 @@ theorem liveRound_ok (cfg : Cfg) (mss thr max d n : Nat) (w : List Nat) (p : Pai
       rw [recv_pure_ack cfg ((((p.x.wrote (w.take m)).sent k L).ticked tk).acked k (wadd p.x.tcb.sndUna k)
         (if 0 = k then p.x.tcb.sndWnd else advWindow cfg.recvCap (0 + (k - 0)))
         0 (if 0 = k then p.x.tcb.retxAttempts else 0))
-        sg h.xst h.xfin hp hfa hff hfr hfs]
+        sg h.xst h.xfin rfl hp hfa hff hfr hfs]
       have hz : wsub sg.ack (wadd p.x.tcb.sndUna k) = 0 := by rw [hack, wsub_self]
       rw [if_neg (by
         show ¬ (0 < wsub sg.ack (wadd p.x.tcb.sndUna k) ∧ _)
@@ -690,7 +724,7 @@ theorem liveRound_ok (cfg : Cfg) (mss thr max d n : Nat) (w : List Nat) (p : Pai
     all_goals first
       | exact h.xst | exact h.xwr | exact h.xfin | exact h.xrs | exact h.xto | exact hw1 | exact hw2
       | exact h.yst | exact h.yfl | exact h.ysb | exact h.ypf | exact h.yfin | exact h.yrs | exact h.yto
-      | exact wadd_lt _ _ | rfl
+      | exact wadd_lt _ _ | exact h.ymx | rfl
   · rw [hround]
     have hBlen : B.length = p.x.tcb.sendBuf.length + m := by
       rw [← hB, List.length_append, List.length_take]; omega
